@@ -1,8 +1,100 @@
-(** C06 — exported statements only. *)
+(** C06 — every FunToken unit is backed one-for-one on the other side.
+    This file holds only the exported statements. *)
 From Coq Require Import List Bool Arith ZArith.
 Import ListNotations.
 Require Import Nib.C06.Model Nib.C06.Spec Nib.C06.Proofs.
+Local Open Scope Z_scope.
 
+(** After EVERY transaction of EVERY history (any sequence of funding, ERC20 deployments of any
+    transfer behaviour, CreateFunToken from coin / from ERC20, ConvertCoinToEvm, precompile
+    sendToBank / sendToEvm / bankMsgSend, ERC20 transfers and burns by users, each possibly wrapped in
+    reverting / swallowing frames, any amounts, senders, recipients): every ERC20 and every denom
+    is in at most one mapping, coin-born ERC20 totalSupply <= coin escrowed in the EVM module account,
+    ERC20-born bank supply <= ERC20 balance of the EVM module account. *)
+Theorem C06_backing_invariant : forall ops : list op, P (views init ops).
+Proof. exact backing_invariant. Qed.
+Print Assumptions C06_backing_invariant.
+
+(** the same, spelled out on the final state of a history *)
+Theorem C06_backing_invariant_state : forall (ops : list op) (m : mapping),
+  In m (reg (run init ops)) ->
+  (m_coin m = true -> esup (run init ops) (m_tok m) <= bank (run init ops) Module (m_den m)) /\
+  (m_coin m = false -> supply (run init ops) (m_den m) <= ebal (run init ops) (m_tok m) Module).
+Proof. exact backing_invariant_state. Qed.
+Print Assumptions C06_backing_invariant_state.
+
+(** Each ERC20 address and each bank denom belongs to at most one mapping … *)
+Theorem C06_unique_mapping : forall ops : list op,
+  NoDup (map m_tok (reg (run init ops))) /\ NoDup (map m_den (reg (run init ops))).
+Proof. exact unique_mapping. Qed.
+Print Assumptions C06_unique_mapping.
+
+(** … because creation is rejected when either side is already mapped (in any state). *)
+Theorem C06_duplicate_creation_rejected : forall (s : st),
+  (forall d, In d (map m_den (reg s)) -> exec s (CreateFromCoin d) = None) /\
+  (forall t, In t (map m_tok (reg s)) \/ In (DErc t) (map m_den (reg s)) -> exec s (CreateFromErc20 t) = None).
+Proof. intro s. split; [exact (create_coin_rejected s) | exact (create_erc20_rejected s)]. Qed.
+Print Assumptions C06_duplicate_creation_rejected.
+
+(** One transaction from a reachable state: the state stays reachable, no mapping disappears or
+    changes, and no mapping's margin (escrow minus what it backs) ever shrinks. *)
+Theorem C06_margin_never_shrinks : forall (s : st) (o : op), reachable s ->
+  reachable (fst (step s o)) /\
+  forall m, In m (reg s) -> In m (reg (fst (step s o))) /\ slack s m <= slack (fst (step s o)) m.
+Proof.
+  intros s o R. split; [exact (reachable_step s o R) | exact (proj2 (step_ok s o (reachable_inv s R)))].
+Qed.
+Print Assumptions C06_margin_never_shrinks.
+
+(** sendToBank, both births: the coins the recipient receives are exactly the MEASURED increase of the
+    module's ERC20 balance (not the requested amount): that many ERC20 are burned and that much escrow
+    released (coin-born), or that many coins minted (ERC20-born); every margin is unchanged. *)
+Theorem C06_send_to_bank_credits_measured : forall s caller t x to s',
+  reachable s -> exec s (SendToBank caller t x to) = Some s' ->
+  exists m0, In m0 (reg s) /\ m_tok m0 = t /\
+    let d := m_den m0 in
+    let got := bank s' to d - bank s to d in
+    0 < got <= x /\
+    (m_coin m0 = true -> esup s t - esup s' t = got /\ bank s Module d - bank s' Module d = got) /\
+    (m_coin m0 = false -> supply s' d - supply s d = got /\ ebal s' t Module - ebal s t Module = got) /\
+    (forall m, In m (reg s) -> slack s' m = slack s m).
+Proof. exact send_to_bank_credits_measured. Qed.
+Print Assumptions C06_send_to_bank_credits_measured.
+
+(** ConvertCoinToEvm / sendToEvm on a coin-born mapping: sender pays x, escrow +x, ERC20 supply +x,
+    recipient's ERC20 balance +x; every margin unchanged. *)
+Theorem C06_to_evm_coin_born_credits_amount : forall s o from d x to s',
+  (o = ConvertCoinToEvm from d x to \/ o = SendToEvm from d x to) ->
+  reachable s -> exec s o = Some s' ->
+  forall m0, find_den s d = Some m0 -> m_coin m0 = true ->
+    let t := m_tok m0 in
+    0 <= x /\ ebal s' t to - ebal s t to = x /\ esup s' t - esup s t = x /\
+    bank s' Module d - bank s Module d = x /\ bank s from d - bank s' from d = x /\
+    (forall m, In m (reg s) -> slack s' m = slack s m).
+Proof. exact to_evm_coin_born_credits_amount. Qed.
+Print Assumptions C06_to_evm_coin_born_credits_amount.
+
+(** ConvertCoinToEvm / sendToEvm on an ERC20-born mapping: the margin of that mapping grows exactly by
+    what the module itself gets back from its own transfer (a fee paid to the module, or the module as
+    recipient) — 0 for standard tokens — and no other margin moves. *)
+Theorem C06_to_evm_erc20_born_margin : forall s o from d x to s',
+  (o = ConvertCoinToEvm from d x to \/ o = SendToEvm from d x to) ->
+  reachable s -> exec s o = Some s' ->
+  forall m0, find_den s d = Some m0 -> m_coin m0 = false ->
+    exists b, tk s (m_tok m0) = Some b /\ 0 <= x /\
+      forall m, In m (reg s) -> slack s' m = slack s m + ind (Nat.eqb (m_tok m) (m_tok m0)) (module_gain b x to).
+Proof. exact to_evm_erc20_born_margin. Qed.
+Print Assumptions C06_to_evm_erc20_born_margin.
+
+(** A rejected transaction, and an operation inside a reverted frame, change nothing (the model's
+    reading of C04; the harness checks the implementation against it). *)
+Theorem C06_rejected_or_reverted_changes_nothing : forall s o,
+  (snd (step s o) = false -> fst (step s o) = s) /\
+  fst (step s (Framed FInnerRevert o)) = s /\ fst (step s (Framed FRevertTop o)) = s /\ fst (step s (Framed FOog o)) = s.
+Proof. intros s o. split; [exact (rejected_changes_nothing s o) | exact (reverted_frame_changes_nothing s o)]. Qed.
+Print Assumptions C06_rejected_or_reverted_changes_nothing.
+
+(** The boolean checker evaluated on implementation traces is sound for [P]. *)
 Theorem C06_checker_sound : forall tr, Pb tr = true -> P tr.
 Proof. exact Pb_sound. Qed.
 Print Assumptions C06_checker_sound.
